@@ -18,6 +18,10 @@ def check(run, tier, seed, replay=None):
     # additive: phases whose objects live in ObjectSlices (machinery and theorems of C14, props/C14.v C14_missing_slice_no_rollout)
     import C14
     C14.sliced_extra(run, tier, seed, "missing", ID_SLICE)
+    if not replay:
+        # the gate / the Available condition rest on what the phase reconciler records from the prober (machinery of C17)
+        import C17
+        C17.probe_stage(run, "C03", tier, seed, "C03 the gate opens although a probe of an object of an earlier phase fails: the phase reconciler does not record a failing probe (e.g. one with an empty message)")
 
 
 ID_SLICE = ("C03 a phase is rolled out (or availability reported) although the slice holding an earlier phase's objects "
